@@ -155,6 +155,25 @@ def scalar_cases(tier):
                 yield [name, args]
 
 
+# ---- text functions on text holding white space other than the space character (tab, line feed, no-break space) ----
+WS_TEXTS = ['a\tb', ' a\n b ', '\xa0a\xa0', 'a \t b', '\ta', 'a\n', ' \xa0 ', '  a   b  ', ' ', 'a\r\nb', '\u2003a\u2003', ' 3 ', '3\t']
+WS_FUNCS = {'TRIM': [], 'LEN': [], 'UPPER': [], 'LOWER': [], 'VALUE': [], 'LEFT': [V(N(2))], 'RIGHT': [V(N(2))], 'MID': [V(N(2)), V(N(2))],
+            'FIND': None, 'SEARCH': None, 'SUBSTITUTE': [V(T(' ')), V(T('_'))], 'CONCAT': [V(T('|'))], 'REPLACE': [V(N(1)), V(N(1)), V(T('x'))]}
+
+
+def ws_cases(tier):
+    for name, rest in WS_FUNCS.items():
+        for t in WS_TEXTS:
+            for k in ('v', 'c'):
+                if rest is None:
+                    for needle in (' ', '\t', '\xa0', 'b'):
+                        yield [name, [[k, list(T(needle))], [k, list(T(t))]]]
+                else:
+                    yield [name, [[k, list(T(t))]] + rest]
+    for t in WS_TEXTS:              # TRIM composed: LEN(TRIM(x)) is spelled by the cell form of LEN over a computed text is not expressible here; TRIM twice is
+        yield ['TEXTJOIN', [V(T(',')), V(B(True)), ['c', list(T(t))], ['v', list(T(t))]]]
+
+
 # ---- aggregations: ordered contents of length <= 3 ---------------------------
 OCC = {'n': [N(3), N(1.5), N(-2)], 'b': [B(True), B(False), B(True)], 't': [T('x'), T('abc'), T('')],
        'nt': [T('2'), T('0.5'), T('-1')], 'blank': [BLANK] * 3, 'e': [NA, DIV, VALUE]}
@@ -226,9 +245,19 @@ def agg_cases(tier):
                 rows, cols = len(a[1]), len(a[1][0])
                 mk = lambda n: [[list(partner[i]) for i in range(n)]] if rows == 1 else [[list(partner[i])] for i in range(n)]
                 shapes = [[a[0], mk(max(rows, cols))], [a[0], mk(max(rows, cols) + 1)]]
+                if max(rows, cols) > 1:           # same number of cells, other orientation: a shape mismatch all the same
+                    n = max(rows, cols)
+                    shapes.append([a[0], [[list(partner[i]) for i in range(n)]] if rows != 1 else [[list(partner[i])] for i in range(n)]])
             for p in shapes:
                 yield ['SUMPRODUCT', [a, p]]
                 yield ['SUMPRODUCT', [p, a]]
+    # two-dimensional blocks: equal shape, transposed shape (equal cell count), different shape
+    blk = lambda r, c, off=0: [[list(N(float(off + i * c + j + 1))) for j in range(c)] for i in range(r)]
+    for kind in ('r', 'a'):
+        for (r1, c1), (r2, c2) in itertools.product([(2, 3), (3, 2), (2, 2), (1, 4), (4, 1), (1, 6), (6, 1)], repeat=2):
+            yield ['SUMPRODUCT', [[kind, blk(r1, c1)], [kind, blk(r2, c2, 10)]]]
+        yield ['SUMPRODUCT', [[kind, blk(2, 3)], [kind, blk(2, 3, 10)], [kind, blk(3, 2, 20)]]]
+        yield ['SUMPRODUCT', [[kind, blk(2, 3)], [kind, blk(2, 3, 10)], [kind, blk(2, 3, 20)]]]
 
 
 # ---- execution --------------------------------------------------------------
@@ -376,6 +405,7 @@ def run(ctx):
     ctx.explore(run_case, scalar_cases(ctx.tier), chunksize=256, label='scalar domain tables')
     ctx.explore(run_case, agg_cases(ctx.tier), chunksize=256, label='aggregation contents x forms')
     ctx.explore(run_case, compose_cases(ctx.tier), chunksize=256, label='aggregation over computed arrays')
+    ctx.explore(run_case, ws_cases(ctx.tier), chunksize=32, label='text functions on non-space white space')
     return {'functions': len(set(TABLE) | set(STD) | set(AFUN)) + 8, 'pool_size': len(pools(ctx.tier)['G']),
             'oracle_audit': {'formulas': stats['audited_formulas'], 'cells': stats['audited_cells'], 'disagreements': 0,
                              'undecided': stats['undecided'], 'per_function': stats['per_function']},
